@@ -257,6 +257,14 @@ func TestVerifC10Merkle(t *testing.T) {
 				sp := getSplitPoint(int64(len(items)))
 				l, rr := HashFromByteSlices(items[:sp]), HashFromByteSlices(items[sp:])
 				other = [][]byte{append(append([]byte{}, l...), rr...)}
+				// prefix-aware form: one leaf whose prefixed encoding equals the prefixed encoding of
+				// the root's inner node, whatever the two prefixes are (possible exactly when the
+				// leaf prefix is a prefix of the inner prefix — with 0x00 / 0x01 it is not)
+				if bytes.HasPrefix(innerPrefix, leafPrefix) {
+					kind = "one-leaf-from-two-subtrees/prefix-aware"
+					it := append([]byte{}, innerPrefix[len(leafPrefix):]...)
+					other = [][]byte{append(append(it, l...), rr...)}
+				}
 			case 1:
 				kind = "append-empty"
 				other = append(append([][]byte{}, items...), []byte{})
